@@ -116,6 +116,19 @@ Definition check_hit : rd verdict :=
       then VOk else VDiff 37 [Z.of_nat (io_read mio); Z.of_nat (io_read io); Z.of_nat (io_closes io)] ] in
   ret (combine_verdicts [check_obs t c x q io r; vdiff]).
 
+(* kind 2: the results of several hits with different answers, inspected after the last hit: each
+   still carries its own target's method and URL (as written), and the first max-body bytes of the
+   answer it got, with bytes-in their number *)
+Definition take_max (mb : Z) (b : list Z) : list Z := if mb <? 0 then b else firstn (Z.to_nat mb) b.
+Definition check_multi : rd verdict :=
+  mb <- getz ;;
+  rows <- getlist (tm <- getstr ;; tu <- getstr ;; served <- getstr ;; sq <- getz ;; rm <- getstr ;; ru <- getstr ;;
+                   code <- getz ;; body <- getstr ;; bin <- getz ;; ret (tm, tu, served, sq, (rm, ru, code, body, bin))) ;;
+  ret (combine_verdicts
+    [ prop_ok 1 (forallb (fun '(tm, tu, _, _, (rm, ru, _, _, _)) => str_eqb tm rm && str_eqb tu ru) rows) [];
+      prop_ok 12 (forallb (fun '(_, _, served, _, (_, _, _, body, _)) => str_eqb body (take_max mb served)) rows) [mb];
+      prop_ok 8 (forallb (fun '(_, _, _, _, (_, _, _, body, bin)) => bin =? Z.of_nat (length body)) rows) [mb] ]).
+
 Definition check : rd verdict :=
   kind <- getz ;;
-  if kind =? 1 then check_hit else fail.
+  if kind =? 1 then check_hit else if kind =? 2 then check_multi else fail.
